@@ -135,43 +135,43 @@ AwardU(b) == [ad |-> Miner, t |-> AwardName(b), o |-> 0, amt |-> Award, fz |-> 0
 
 (* dependency order inside a set of mutually conflict-free transactions *)
 DependsOn(t, u) == (\E i \in TX[t].ins : i[1] = u) \/ (\E k \in Keys : TX[t].reads[k] = u)
-RECURSIVE TopoOrder(_)          \* some order in which producers come first
-TopoOrder(S) == IF S = {} THEN <<>>
-                ELSE LET c == CHOOSE c \in S : ~\E u \in S \ {c} : DependsOn(c, u) IN <<c>> \o TopoOrder(S \ {c})
-RECURSIVE ApplySeq(_, _)
-ApplySeq(s, seq) == IF seq = <<>> THEN s ELSE ApplySeq(Apply(s, Head(seq)), Tail(seq))
-RECURSIVE UnapplySeq(_, _)      \* newest first
-UnapplySeq(s, seq) == IF seq = <<>> THEN s ELSE UnapplySeq(Unapply(s, seq[Len(seq)]), SubSeq(seq, 1, Len(seq) - 1))
+(* Iteration is written with FoldLeft / FoldSet (evaluated eagerly by TLC's Java overrides): TLC does not cache
+   lazily evaluated operator arguments while it evaluates an action, so deep recursion over derived values
+   would be re-evaluated exponentially often. *)
+Idx(k) == [i \in 1..k |-> i]
+TopoOrder(S) ==                 \* some order in which producers come first
+  FoldLeft(LAMBDA acc, i : LET c == CHOOSE c \in acc.rest : ~\E u \in acc.rest \ {c} : DependsOn(c, u) IN
+                           [rest |-> acc.rest \ {c}, seq |-> Append(acc.seq, c)],
+           [rest |-> S, seq |-> <<>>], Idx(Cardinality(S))).seq
+ApplySeq(s, seq) == FoldLeft(LAMBDA acc, t : Apply(acc, t), s, seq)
+UnapplySeq(s, seq) == FoldLeft(LAMBDA acc, t : Unapply(acc, t), s, Reverse(seq))      \* newest first
 UndoSet(s, S) == UnapplySeq(s, TopoOrder(S))
 
 (* play the transactions of block b over s; txs in `skip` are already applied (pool members) *)
-RECURSIVE PlayTxs(_, _, _, _)
 PlayTxs(s, seq, skip, lh) ==
-  IF seq = <<>> THEN [ok |-> TRUE, s |-> s]
-  ELSE LET t == Head(seq) IN
-       IF t \in skip THEN PlayTxs([s EXCEPT !.utxo = @ \cup FeeU(t)], Tail(seq), skip, lh)
-       ELSE IF ~Valid(s, t, lh) THEN [ok |-> FALSE]
-       ELSE PlayTxs([Apply(s, t) EXCEPT !.utxo = @ \cup FeeU(t)], Tail(seq), skip, lh)
+  FoldLeft(LAMBDA acc, t :
+             IF ~acc.ok THEN acc
+             ELSE IF t \in skip THEN [ok |-> TRUE, s |-> [acc.s EXCEPT !.utxo = @ \cup FeeU(t)]]
+             ELSE IF ~Valid(acc.s, t, lh) THEN [ok |-> FALSE, s |-> acc.s]
+             ELSE [ok |-> TRUE, s |-> [Apply(acc.s, t) EXCEPT !.utxo = @ \cup FeeU(t)]],
+           [ok |-> TRUE, s |-> s], seq)
 PlayBlock(s, b, skip, lh) ==
   PlayTxs([s EXCEPT !.utxo = @ \cup {AwardU(b)}, !.total = @ + Award], blk[b].txs, skip, lh)
-RECURSIVE UndoTxs(_, _)
-UndoTxs(s, seq) == IF seq = <<>> THEN s
-  ELSE LET t == seq[Len(seq)] IN UndoTxs([Unapply(s, t) EXCEPT !.utxo = @ \ FeeU(t)], SubSeq(seq, 1, Len(seq) - 1))
+UndoTxs(s, seq) == FoldLeft(LAMBDA acc, t : [Unapply(acc, t) EXCEPT !.utxo = @ \ FeeU(t)], s, Reverse(seq))
 UndoBlock(s, b) == LET s1 == UndoTxs(s, blk[b].txs) IN [s1 EXCEPT !.utxo = @ \ {AwardU(b)}, !.total = @ - Award]
 
 (* what a fresh node obtains by playing genesis..b in order (frozen check against each block's own
    height - 1 = the ledger height a node extending its chain sees) *)
-RECURSIVE Replay(_)
-Replay(b) == IF b = 1 THEN [ok |-> TRUE, s |-> S0]
-             ELSE LET p == Replay(Parent(b)) IN
-                  IF ~p.ok THEN [ok |-> FALSE] ELSE PlayBlock(p.s, b, {}, Height(b))
+RECURSIVE BlocksTo(_)            \* the blocks after the root up to b, oldest first
+BlocksTo(b) == IF b <= 1 THEN <<>> ELSE Append(BlocksTo(Parent(b)), b)
+Replay(b) == FoldLeft(LAMBDA acc, x : IF ~acc.ok THEN acc
+                                      ELSE LET r == PlayBlock(acc.s, x, {}, Height(x)) IN
+                                           IF r.ok THEN r ELSE [ok |-> FALSE, s |-> acc.s],
+                      [ok |-> TRUE, s |-> S0], BlocksTo(b))
 (* the same fold without validity checks (equals Replay where Replay succeeds) *)
-RECURSIVE ForceTxs(_, _)
-ForceTxs(s, seq) == IF seq = <<>> THEN s ELSE ForceTxs([Apply(s, Head(seq)) EXCEPT !.utxo = @ \cup FeeU(Head(seq))], Tail(seq))
-RECURSIVE ForceReplay(_)
-ForceReplay(b) == IF b = 1 THEN S0
-                  ELSE LET p == ForceReplay(Parent(b)) IN
-                       ForceTxs([p EXCEPT !.utxo = @ \cup {AwardU(b)}, !.total = @ + Award], blk[b].txs)
+ForceTxs(s, seq) == FoldLeft(LAMBDA acc, t : [Apply(acc, t) EXCEPT !.utxo = @ \cup FeeU(t)], s, seq)
+ForceReplay(b) == FoldLeft(LAMBDA acc, x : ForceTxs([acc EXCEPT !.utxo = @ \cup {AwardU(x)}, !.total = @ + Award], blk[x].txs),
+                           S0, BlocksTo(b))
 NextIrr(cur, h) == IF Window = 0 THEN cur ELSE IF h - Window > cur THEN h - Window ELSE cur
 
 LHeight == Height(ltip)
@@ -255,31 +255,33 @@ Rec(s, p, ir, pl) == [s |-> s, ptr |-> p, irr |-> ir, pool |-> pl]
 CurRec == Rec(St, ptr, irr, pool)
 Force(x) == CHOOSE y \in {x} : TRUE        \* evaluate once
 LastOr(seq, dflt) == IF seq = <<>> THEN dflt ELSE seq[Len(seq)]
-RECURSIVE UndoSteps(_, _, _, _, _)    \* refuses at or below the irreversible height unless pruning
+(* undo newest-first from b down to (excluding) stop; refuses at or below the irreversible height unless pruning *)
 UndoSteps(s, b, stop, prune, ir) ==
-  IF b = stop THEN [ok |-> TRUE, seq |-> <<>>]
-  ELSE IF ~prune /\ Height(b) <= ir THEN [ok |-> FALSE, seq |-> <<>>]
-  ELSE LET s2 == UndoBlock(s, b)
-           ir2 == IF prune /\ Window > 0 THEN PruneIrr(Height(b), ir) ELSE ir
-           rest == UndoSteps(s2, Parent(b), stop, prune, ir2) IN
-       [ok |-> rest.ok, seq |-> <<Rec(s2, Parent(b), ir2, {})>> \o rest.seq]
-RECURSIVE RedoSteps(_, _, _, _)       \* ideal: frozen inputs judged at the block's own height
-RedoSteps(s, seq, ir, ideal) ==
-  IF seq = <<>> THEN [ok |-> TRUE, seq |-> <<>>]
-  ELSE LET b == Head(seq)
-           r == PlayBlock(s, b, {}, IF ideal THEN Height(b) ELSE BlockLH(b)) IN
-       IF ~r.ok THEN [ok |-> FALSE, seq |-> <<>>]
-       ELSE LET ir2 == NextIrr(ir, Height(b))
-                rest == RedoSteps(r.s, Tail(seq), ir2, ideal) IN
-            [ok |-> rest.ok, seq |-> <<Rec(r.s, b, ir2, {})>> \o rest.seq]
+  LET r == FoldLeft(LAMBDA acc, x :
+                      IF ~acc.ok THEN acc
+                      ELSE IF ~prune /\ Height(x) <= acc.ir THEN [acc EXCEPT !.ok = FALSE]
+                      ELSE LET s2 == UndoBlock(acc.s, x)
+                               ir2 == IF prune /\ Window > 0 THEN PruneIrr(Height(x), acc.ir) ELSE acc.ir IN
+                           [ok |-> TRUE, s |-> s2, ir |-> ir2, seq |-> Append(acc.seq, Rec(s2, Parent(x), ir2, {}))],
+                    [ok |-> TRUE, s |-> s, ir |-> ir, seq |-> <<>>], Reverse(PathUp(stop, b))) IN
+  [ok |-> r.ok, seq |-> r.seq]
+RedoSteps(s, seq, ir, ideal) ==       \* ideal: frozen inputs judged at the block's own height
+  LET r == FoldLeft(LAMBDA acc, b :
+                      IF ~acc.ok THEN acc
+                      ELSE LET pr == PlayBlock(acc.s, b, {}, IF ideal THEN Height(b) ELSE BlockLH(b)) IN
+                           IF ~pr.ok THEN [acc EXCEPT !.ok = FALSE]
+                           ELSE LET ir2 == NextIrr(acc.ir, Height(b)) IN
+                                [ok |-> TRUE, s |-> pr.s, ir |-> ir2, seq |-> Append(acc.seq, Rec(pr.s, b, ir2, {}))],
+                    [ok |-> TRUE, s |-> s, ir |-> ir, seq |-> <<>>], seq) IN
+  [ok |-> r.ok, seq |-> r.seq]
 (* recoverUnconfirmedTx: rolled-back pool members are re-admitted in the given order when still valid *)
-RECURSIVE ReadmitStepsX(_, _, _, _)
 ReadmitStepsX(rec, seq, lh, skipConfirmed) ==
-  IF seq = <<>> THEN <<>>
-  ELSE LET t == Head(seq) IN
-       IF ~(skipConfirmed /\ Confirmed(t)) /\ Valid(rec.s, t, lh)
-       THEN LET r2 == Rec(Apply(rec.s, t), rec.ptr, rec.irr, rec.pool \cup {t}) IN <<r2>> \o ReadmitStepsX(r2, Tail(seq), lh, skipConfirmed)
-       ELSE ReadmitStepsX(rec, Tail(seq), lh, skipConfirmed)
+  FoldLeft(LAMBDA acc, t :
+             IF ~(skipConfirmed /\ Confirmed(t)) /\ Valid(acc.rec.s, t, lh)
+             THEN LET r2 == Rec(Apply(acc.rec.s, t), acc.rec.ptr, acc.rec.irr, acc.rec.pool \cup {t}) IN
+                  [rec |-> r2, seq |-> Append(acc.seq, r2)]
+             ELSE acc,
+           [rec |-> rec, seq |-> <<>>], seq).seq
 ReadmitSteps(rec, seq, lh) == ReadmitStepsX(rec, seq, lh, TRUE)   \* a tx that is on the main chain by now is not re-admitted
 WalkSteps(rec, d, prune, order, ideal) ==
   LET w1 == Rec(UndoSet(rec.s, rec.pool), rec.ptr, rec.irr, {})     \* the whole pool is rolled back first
@@ -352,11 +354,11 @@ OpFault(o, r) == UNCHANGED <<blk, n, ltip, ptr, utxo, zu, zd, total, irr, pool, 
 AntiDep(r, w) == r # w /\ \E k \in Keys : /\ TX[w].writes[k] # NoRd /\ TX[r].writes[k] = NoRd
                                             /\ TX[r].reads[k] # NoRd /\ TX[r].reads[k] = TX[w].reads[k]
 PoolOrderOK(seq) == \A i, j \in DOMAIN seq : i < j => ~DependsOn(seq[i], seq[j]) /\ ~AntiDep(seq[j], seq[i])
-RECURSIVE GoodOrder(_)       \* one admissible order, built greedily (exists for every conflict-free pool)
-GoodOrder(S) == IF S = {} THEN <<>>
-                ELSE LET ok == {c \in S : ~\E u \in S \ {c} : DependsOn(c, u) \/ AntiDep(u, c)}
-                         c == IF ok = {} THEN CHOOSE x \in S : TRUE ELSE CHOOSE x \in ok : TRUE IN
-                     <<c>> \o GoodOrder(S \ {c})
+GoodOrder(S) ==               \* one admissible order, built greedily (exists for every conflict-free pool)
+  FoldLeft(LAMBDA acc, i : LET ok == {c \in acc.rest : ~\E u \in acc.rest \ {c} : DependsOn(c, u) \/ AntiDep(u, c)}
+                               c == IF ok = {} THEN CHOOSE x \in acc.rest : TRUE ELSE CHOOSE x \in ok : TRUE IN
+                           [rest |-> acc.rest \ {c}, seq |-> Append(acc.seq, c)],
+           [rest |-> S, seq |-> <<>>], Idx(Cardinality(S))).seq
 (* a node that never saw the transactions confirms the chain of b and walks to it *)
 ReplicaObs(b) ==
   LET w == Force(WalkSteps(Rec(S0, 1, 0, {}), b, FALSE, <<>>, TRUE)) IN
@@ -451,8 +453,7 @@ CrashSpec == Init /\ [][CrashNext]_vars
 (* Observable projection (compared with the real state machine after every step) *)
 KeyObs(s, k) == [ver |-> Cur(s, k), val |-> IF Cur(s, k) = None THEN None ELSE ValueOf(Cur(s, k), k)]
 UtxoRow(u) == <<u.ad, u.t, u.o, u.amt, u.fz>>
-RECURSIVE SumAmt(_)
-SumAmt(S) == IF S = {} THEN 0 ELSE LET x == CHOOSE x \in S : TRUE IN x.amt + SumAmt(S \ {x})
+SumAmt(S) == FoldSet(LAMBDA u, acc : acc + u.amt, 0, S)
 Balance(s, a) == SumAmt({u \in s.utxo : u.ad = a})
 PendingFees == SumAmt(UNION {FeeU(t) : t \in pool})
 ChainSeq(b) == PathUp(0, b)       \* root..b, oldest first  (PathUp(0, b) walks to parent 0)
@@ -491,8 +492,9 @@ Supersedes(t, k) == TX[t].writes[k] # NoRd
 NoDoubleSpend == \A t, u \in Admitted : t # u =>
                     /\ TX[t].ins \cap TX[u].ins = {}
                     /\ \A k \in Keys : ~(Supersedes(t, k) /\ Supersedes(u, k) /\ TX[t].reads[k] = TX[u].reads[k])
-RECURSIVE AllApply(_, _, _)
-AllApply(s, seq, lh) == seq = <<>> \/ (Valid(s, Head(seq), lh) /\ AllApply(Apply(s, Head(seq)), Tail(seq), lh))
+AllApply(s, seq, lh) == FoldLeft(LAMBDA acc, t : IF acc.ok /\ Valid(acc.s, t, lh) THEN [ok |-> TRUE, s |-> Apply(acc.s, t)]
+                                                  ELSE [ok |-> FALSE, s |-> acc.s],
+                                 [ok |-> TRUE, s |-> s], seq).ok
 PoolValid == /\ \A t \in pool : \A i \in TX[t].ins : ~InUtxo(St, i)        \* inputs of pending txs are consumed
              /\ AllApply(UndoSet(St, pool), GoodOrder(pool), LHeight)        \* and all of them apply on the chain state
 (* C17: with window w > 0 the irreversible height is max(0, max over blocks ever applied of height - w);
